@@ -828,6 +828,9 @@ func unmarshalProto(inBytes []byte, outi interface{}) error {
 		}
 	}
 	for i := range in.Link {
+		if in.Link[i] == "" {
+			continue
+		}
 		out.Link[i] = in.Link[i]
 	}
 	return nil
